@@ -1,6 +1,6 @@
 """C08 - the stream parser never panics, its allocations are bounded by the stream length, and its reads are lazy."""
 from ..census import Census, base_facts
-from ..engine import analyze_fn, norm
+from ..engine import norm as nm, analyze_fn, norm
 from ..streamrules import (rule_load_before_get, rule_cache_protocol, rule_io_protocol, stream_fns, is_io_call, wh)
 from ..terms import T, Term, pp
 
@@ -142,7 +142,10 @@ def alloc_guard(an, cs):
     r = None
     if n.op == "call" and n.args[0] == "iter::ExactSizeIterator::len":
         r = n.args[2][0]
-        r = r.args[0] if r.op == "refval" else r
+        if r.op == "refval":
+            r = r.args[0]
+        elif r.op == "param" and nm(an.local_ty.get(r.args[0], "")).startswith("&"):
+            r = T.deref(r)          # the range is handed to this function by reference
         end = T.proj(r, ("f", 1, "end"))
     elif n.op == "bin" and n.args[0] == "Sub":
         end = n.args[1]
@@ -152,6 +155,10 @@ def alloc_guard(an, cs):
         return None
     pv = Prover(an)
     sl = [x for f in cs.facts for y in f[1:] if hasattr(y, "subterms") for x in y.subterms() if x.op == "proj" and x.args[1][2] == "stream_len"]
+    # ... or a parameter that every caller binds to the reader's stream_len (a free helper function of load_bytes)
+    for i in range(1, an.body["arg_count"] + 1):
+        if an.names.get(i) == "stream_len" and _bound_to_stream_len(an, i):
+            sl.append(T.param(i))
     e64 = T.cast("IntToInt", end, "usize", "u64")
     for slt in {x for x in sl}:
         if pv.le(e64, slt, cs.facts):
@@ -160,6 +167,19 @@ def alloc_guard(an, cs):
             if f[0] == "var" and f[2] == "Some" and f[1].op == "call" and f[1].args[0] == "u64::checked_sub" and f[1].args[2][0] is slt and f[1].args[2][1] is e64:
                 return "len(range) <= range.end <= self.stream_len (stream_len.checked_sub(end) succeeded)"
     return None
+
+
+def _bound_to_stream_len(an, i):
+    F = an.F
+    sites = 0
+    for fn in stream_fns(F):
+        for c in analyze_fn(F, fn).calls():
+            if (c.callee.get("resolved_id") or c.callee.get("id")) == an.fn["id"]:
+                sites += 1
+                a = c.args[i - 1] if i - 1 < len(c.args) else None
+                if not (a is not None and a.op == "proj" and a.args[1][2] == "stream_len"):
+                    return False
+    return sites > 0
 
 
 def check_read_sites(F, rep):
